@@ -144,7 +144,7 @@ def sort_values(s, dom=None):
         ev = sort_values(esort, dom)
         if isort == BOOL or isort[0] == "BV":
             idx = list(domain(isort))
-            if len(ev) ** len(idx) <= 256:
+            if len(ev) ** len(idx) <= 16:
                 return tuple(ArrVal.total(isort, dict(zip(idx, vals)))
                              for vals in product(ev, repeat=len(idx)))
             # a few: constants, single exception
